@@ -59,7 +59,7 @@ def plan(tier):
         if a != b:
             raise SystemExit('BROKEN: platform not bit-reproducible for %r across fresh interpreters' % (op,))
     ref = {_key(op): a for op, a in zip(ops, r1)}
-    items = []
+    items = [{'kind': 'gradmode', 'ref': ref}]
     roots = [['construct', k] for k in purity.ORDER] + [['load', n] for n in purity.LOADS]
     for a in roots:
         for b in roots:
@@ -84,7 +84,7 @@ def plan(tier):
 
 def required_regimes(tier):
     return {'hist:construct', 'hist:call', 'hist:load', 'hist:state_changed_by_construct', 'pairs', 'sched:every_line', 'sched:visible',
-            'sched:preempted', 'sched:free_running', 'gradmode:grad', 'gradmode:nograd'} | ({'triples'} if tier == 'thorough' else set())
+            'sched:preempted', 'sched:free_running', 'gradmode:grad', 'gradmode:nograd', 'gradmode:compared'} | ({'triples'} if tier == 'thorough' else set())
 
 
 _SNAP = None
@@ -404,11 +404,29 @@ def _run_sched(item, res):
     _snap().reset()
 
 
+def _run_gradmode(item, res):
+    """The value of a call does not depend on whether autograd is recording: pristine outputs under no_grad and with
+    inputs that require grad (+ backward) are bitwise equal."""
+    ref = item['ref']
+    for k in purity.ORDER:
+        for i in (0, 1):
+            a, b = ref[_key(['call', k, i, 'nograd'])], ref[_key(['call', k, i, 'grad'])]
+            res['evals'] += 1
+            res['ophashes'].append(hidden._digest(repr((k, i)).encode()))
+            if a['outputs'] != b['outputs']:
+                res.violation('history_purity', {'op': ['call', k, i, 'grad'], 'compared_with': ['call', k, i, 'nograd']},
+                              {'kind': 'result_depends_on_autograd_recording'}, [])
+    res.regime('gradmode:compared')
+    res.state('gradmode')
+
+
 def run(item):
     common.init_worker()
     res = Res()
     _snap()
-    if item['kind'] == 'hist':
+    if item['kind'] == 'gradmode':
+        _run_gradmode(item, res)
+    elif item['kind'] == 'hist':
         _run_hist(item, res)
     elif item['kind'] == 'pairs':
         _run_pairs(item, res)
